@@ -7,9 +7,11 @@ import (
 	"context"
 	"errors"
 	"fmt"
+	"math"
 	"sort"
 	"strings"
 	"sync/atomic"
+	"time"
 
 	"github.com/samber/lo"
 	"github.com/samber/ro"
@@ -179,6 +181,13 @@ type Op = func(ro.Observable[any]) ro.Observable[any]
 func viaInt(op func(ro.Observable[int]) ro.Observable[int]) Op {
 	return func(src ro.Observable[any]) ro.Observable[any] {
 		return ro.Map(func(x int) any { return x })(op(ro.Map(func(a any) int { return asInt(a) })(src)))
+	}
+}
+
+// viaHalf runs a float operator of the rounding family on v / 2 and reads the result back as an integer (times k).
+func viaHalf(op func(ro.Observable[float64]) ro.Observable[float64], k float64) Op {
+	return func(src ro.Observable[any]) ro.Observable[any] {
+		return ro.Map(func(x float64) any { return int(x * k) })(op(ro.Map(func(a any) float64 { return float64(asInt(a)) / 2 })(src)))
 	}
 }
 
@@ -520,6 +529,38 @@ func Build(st Stage, i int, e *Env) (Op, error) {
 		}), nil
 	case "ContextWithTimeout":
 		return ro.ContextWithTimeout[any](3600 * 1e9), nil
+	case "ContextWithDeadline":
+		return ro.ContextWithDeadline[any](time.Now().Add(time.Hour)), nil
+	case "Cast":
+		return func(src ro.Observable[any]) ro.Observable[any] { return anyOf(ro.Cast[any, int]()(src)) }, nil
+	case "TimeInterval":
+		// the measured interval is abstracted away: the value passes through unchanged
+		return func(src ro.Observable[any]) ro.Observable[any] {
+			return ro.Map(func(x ro.IntervalValue[any]) any { return x.Value })(ro.TimeInterval[any]()(src))
+		}, nil
+	case "Timestamp":
+		return func(src ro.Observable[any]) ro.Observable[any] {
+			return ro.Map(func(x ro.TimestampValue[any]) any { return x.Value })(ro.Timestamp[any]()(src))
+		}, nil
+	case "Ceil":
+		return viaHalf(ro.Ceil(), 1), nil
+	case "Floor":
+		return viaHalf(ro.Floor(), 1), nil
+	case "Round":
+		return viaHalf(ro.Round(), 1), nil
+	case "Trunc":
+		return viaHalf(ro.Trunc(), 1), nil
+	case "Abs":
+		return viaHalf(ro.Abs(), 2), nil
+	case "Average":
+		return func(src ro.Observable[any]) ro.Observable[any] {
+			return ro.Map(func(x float64) any {
+				if math.IsNaN(x) {
+					return -999
+				}
+				return int(math.Round(x * 12))
+			})(ro.Average[int]()(ro.Map(func(a any) int { return asInt(a) })(src)))
+		}, nil
 	}
 	return nil, fmt.Errorf("catalogue: no constructor for %q", g)
 }
